@@ -282,7 +282,7 @@ MODELS.update({
 # ------------------------------------------------------------------------------------------ simulation of long behaviours
 def model_hist_sim(tier, wd, seed=1):
     """random behaviours of MC_Hist far beyond the exhaustive depth (TLC -simulate), invariants and action properties on every step"""
-    depth, num = (12, 400) if tier == "quick" else (25, 6000)
+    depth, num = (12, 400) if tier == "quick" else (25, 2500)
     cfg = write_cfg("MC_Hist_sim.cfg", HIST_CFG % {"depth": depth, "kt": "comb_ed", "dev": "none", "emit": "FALSE"})
     res = run.tlc_model(cfg, "MC_Hist.tla", os.path.join(wd, "mc_hist_sim"), workers=8, timeout=3600,
                         extra_args=["-simulate", "num=%d" % num, "-depth", str(depth + 2), "-seed", str(seed)])
